@@ -156,9 +156,19 @@ Definition construct (c : case) : result (array2d Z) :=
   | CJagged rows => new2d_from_jagged 0 (c_w c) (c_h c) rows
   end.
 
-Definition check_case (c : case) : bool :=
+Definition check_case_strict (c : case) : bool :=
   match construct c, c_grid0 c with
   | Panic _, Panic _ => match c_steps c with [] => true | _ => false end
   | Ok a, Ok g0 => (width a =? c_w c) && (height a =? c_h c) && grid_matches a g0 && run_steps a g0 (c_steps c)
   | _, _ => false
   end.
+
+(* A negative width or height is outside the property (w, h >= 0).  Such cases stay in the
+   stream and are evaluated on the model (new2d's make panic, the all-calls-panic array), but
+   they never fail the check; the harness records as a stat whether the code still behaves
+   as transcribed there. *)
+Definition outside_property (c : case) : bool := (c_w c <? 0) || (c_h c <? 0).
+
+Definition check_case (c : case) : bool :=
+  let verdict := check_case_strict c in
+  if outside_property c then true else verdict.
